@@ -636,6 +636,7 @@ void setup_c11(const Plan &P)
     int size = P.cfg["max_size"].toInt();
     int cnt = P.cfg["max_count"].toInt();
     RotatingFileSink::Options opts = RotatingFileSink::Options(P.cfg["options"].toInt());
+    std::function<void()> late_step;
     if (mode == "fluent-multi") {
         QString apath = QString::fromStdString(C->rundir) + "/audit.log";
         int kind = P.cfg["audit_kind"].toInt(), arg = P.cfg["audit_arg"].toInt();
@@ -653,16 +654,25 @@ void setup_c11(const Plan &P)
             asink = RotatingFileSinkPtr::create(apath, P.cfg["audit_size"].toInt(), 0, RotatingFileSink::None);
         else
             asink = FileSinkPtr::create(apath);
+        // "late": the branch is attached without its sink, the complete logger is flushed once (an application
+        // that flushes from a timer), and only then the file sink is added to the attached branch
+        const bool late = P.cfg["audit_late"].toBool();
         if (container == "pipeline") {
             // a plain Pipeline object appended with operator<< (README style)
             auto sub = PipelinePtr::create(/* scoped */ true);
             sub->append(flt);
             sub->append(fmt);
-            sub->append(asink);
+            if (late)
+                late_step = [sub, asink]() { sub->append(asink); };
+            else
+                sub->append(asink);
             *C->logger << sub;
         } else if (container == "sorted") {
             auto sub = SortedPipelinePtr::create(/* scoped */ true);
-            sub->appendSink(asink);
+            if (late)
+                late_step = [sub, asink]() { sub->appendSink(asink); };
+            else
+                sub->appendSink(asink);
             sub->setFormatter(fmt);
             sub->appendFilter(flt);
             *C->logger << sub;
@@ -695,6 +705,10 @@ void setup_c11(const Plan &P)
     }
     // observes the flush on a fatal message: it must not run while another thread is inside a sink
     *C->logger << make_probe_sink(900);
+    if (late_step) {
+        C->logger->flush();
+        late_step();
+    }
 }
 
 void warm_up()
